@@ -1579,3 +1579,55 @@ func runSnapshotCopyDeep(c *Ctx, rule string) {
 		}
 	}
 }
+
+// ---- C10-S4: what group-by spills is what it later merges.
+func runSpillPartialsPairing(c *Ctx, rule string) {
+	p := c.P
+	c.Rule(rule, "group-by spills partial results and merges them as partials: spillTable reads the whole table in partial form (readTable(flush=true, partialsOut=true)) and nextResultFromSpills recombines rows with consumeAsPartial only — spilling final results and re-aggregating them as inputs (or the reverse) changes counts, averages and distinct sets once the memory limit is hit")
+	st := p.Func("(*runtime/sam/op/groupby.Aggregator).spillTable")
+	nr := p.Func("(*runtime/sam/op/groupby.Aggregator).nextResultFromSpills")
+	if st == nil || nr == nil {
+		c.Undecided(rule, "groupby.Aggregator.spillTable / nextResultFromSpills", "anchors do not resolve")
+		return
+	}
+	found := false
+	for _, ci := range allCalls(st) {
+		if calleeName(ci.Common()) != "(*runtime/sam/op/groupby.Aggregator).readTable" {
+			continue
+		}
+		found = true
+		args := ci.Common().Args
+		isTrue := func(v ssa.Value) bool {
+			k, ok := v.(*ssa.Const)
+			return ok && k.Value != nil && k.Value.String() == "true"
+		}
+		if len(args) >= 3 && isTrue(args[1]) && isTrue(args[2]) {
+			c.OK(rule, "spillTable -> readTable", ci.Pos(), "flush=true, partialsOut=true")
+		} else {
+			c.Fail(rule, "spillTable -> readTable", ci.Pos(), "the table is not spilled whole and in partial form: the rows written to the spill file are later recombined with consumeAsPartial, which expects partials (count as a count, avg as sum+count, …)")
+		}
+	}
+	if !found {
+		c.Undecided(rule, "spillTable -> readTable", "call not found")
+	}
+	partial, plain := false, false
+	var pos token.Pos
+	for _, ci := range allCalls(nr) {
+		switch calleeName(ci.Common()) {
+		case "(runtime/sam/op/groupby.valRow).consumeAsPartial":
+			partial = true
+			pos = ci.Pos()
+		case "(runtime/sam/op/groupby.valRow).apply":
+			plain = true
+			pos = ci.Pos()
+		}
+	}
+	switch {
+	case plain:
+		c.Fail(rule, "nextResultFromSpills recombination", pos, "spilled rows are fed to the aggregates as plain inputs (apply) instead of as partials: a spilled count of 5 counts as one more value")
+	case !partial:
+		c.Undecided(rule, "nextResultFromSpills recombination", "no consumeAsPartial call found")
+	default:
+		c.OK(rule, "nextResultFromSpills recombination", pos, "consumeAsPartial")
+	}
+}
